@@ -346,7 +346,10 @@ func (g *Gen) CoverChecks(header string, results []*FnResult, outDir string, par
 			}
 			seen[ret] = true
 			var b strings.Builder
-			b.WriteString(header)
+			if r.header == "" {
+				r.header = g.HeaderFor(r)
+			}
+			b.WriteString(r.header)
 			for _, l := range r.Lines[:o.PrefixLen] {
 				b.WriteString(l + "\n")
 			}
